@@ -81,6 +81,9 @@ type verifRawConn struct {
 	sent   [][]byte
 	frames [][]byte
 	pos    int
+	hold   chan struct{} // if set: the first WriteTo stays inside the socket until hold is closed
+	inside chan struct{} // closed when that WriteTo has entered the socket
+	held   bool
 }
 
 var errVerifNoMoreFrames = errors.New("verif: no more frames")
@@ -94,7 +97,12 @@ func (c *verifRawConn) ReadFrom(b []byte) (int, net.Addr, error) {
 	return copy(b, f), nil, nil
 }
 func (c *verifRawConn) WriteTo(b []byte, a net.Addr) (int, error) {
-	c.sent = append(c.sent, append([]byte(nil), b...))
+	if c.hold != nil && !c.held {
+		c.held = true
+		close(c.inside)
+		<-c.hold // the frame is still the caller's while the socket works on it
+	}
+	c.sent = append(c.sent, append([]byte(nil), b...)) // what leaves is what b holds when the socket is done
 	return len(b), nil
 }
 func (c *verifRawConn) Close() error                       { return nil }
@@ -287,5 +295,66 @@ func VerifC18ReadSeq(l1, l2 int) {
 			verifAssert(verifSame(ua.IP.To4(), wantSrc[i]) && ua.Port == int(wantPort[i]), "source-address-of-the-ith-frame-also-after-later-reads")
 		}
 	}
+	verifReach("end")
+}
+
+
+// verifC18FrameOK: layout and IP header checksum of one emitted frame (see VerifC18Write).
+func verifC18FrameOK(f, payload, wsrc, wdst []byte, sport, dport uint16) {
+	n := len(payload)
+	verifAssert(len(f) == 28+n, "frame-length")
+	if len(f) != 28+n {
+		return
+	}
+	verifAssert(f[0] == 0x45, "version-4-header-20-bytes")
+	verifAssert(int(f[2])<<8|int(f[3]) == 28+n, "ip-total-length")
+	verifAssert(f[9] == 17, "protocol-udp")
+	verifAssert(verifSame(f[12:16], wsrc), "source-address")
+	verifAssert(verifSame(f[16:20], wdst), "destination-address")
+	verifAssert(refFold(refOnesSum(0, f[:20])) == 0xffff, "ip-header-checksum-verifies")
+	verifAssert(uint16(f[20])<<8|uint16(f[21]) == sport, "source-port")
+	verifAssert(uint16(f[22])<<8|uint16(f[23]) == dport, "destination-port")
+	verifAssert(int(f[24])<<8|int(f[25]) == 8+n, "udp-length")
+	verifAssert(verifSame(f[28:], payload), "payload-unchanged")
+}
+
+// VerifC18WriteSeq: two datagrams written through ONE connection, one after the other
+// (concurrent = 0) or by two goroutines with the first frame still inside the socket while the
+// second is written (concurrent = 1): each leaves as a well-formed frame of its own.
+func VerifC18WriteSeq(n1, n2, concurrent int) {
+	p1, p2 := verifBytes("payload", n1), verifBytes("payload", n2)
+	srcIP, wsrc := verifAddr4("src", 0)
+	d1, wd1 := verifAddr4("dst", 0)
+	d2, wd2 := verifAddr4("dst", 1)
+	sport, dp1, dp2 := verifU16("sport"), verifU16("dport"), verifU16("dport")
+	raw := &verifRawConn{}
+	conn := NewBroadcastUDPConn(raw, &net.UDPAddr{IP: srcIP, Port: int(sport)})
+	if concurrent == 0 {
+		_, e1 := conn.WriteTo(p1, &net.UDPAddr{IP: d1, Port: int(dp1)})
+		_, e2 := conn.WriteTo(p2, &net.UDPAddr{IP: d2, Port: int(dp2)})
+		verifAssert(e1 == nil && e2 == nil, "write-ok")
+	} else {
+		raw.hold, raw.inside = make(chan struct{}), make(chan struct{})
+		done := make(chan error, 1)
+		go func() {
+			_, e := conn.WriteTo(p1, &net.UDPAddr{IP: d1, Port: int(dp1)})
+			done <- e
+		}()
+		<-raw.inside // the first writer is inside the socket now
+		_, e2 := conn.WriteTo(p2, &net.UDPAddr{IP: d2, Port: int(dp2)})
+		close(raw.hold)
+		e1 := <-done
+		verifAssert(e1 == nil && e2 == nil, "write-ok")
+	}
+	verifAssert(len(raw.sent) == 2, "one-frame-per-datagram")
+	if len(raw.sent) != 2 {
+		return
+	}
+	f1, f2 := raw.sent[0], raw.sent[1]
+	if concurrent != 0 {
+		f1, f2 = f2, f1 // the held frame is recorded last
+	}
+	verifC18FrameOK(f1, p1, wsrc, wd1, sport, dp1)
+	verifC18FrameOK(f2, p2, wsrc, wd2, sport, dp2)
 	verifReach("end")
 }
